@@ -294,12 +294,57 @@ func TestPropDocumentOrder(t *testing.T) {
 // ---------------------------------------------------------------------------
 // (b) programmatically built ordered maps survive encode -> decode
 
-func genMap(t *rapid.T, depth int, yamlSafe bool, noMergeKey bool) *ordered.MapSA {
+// genMap builds an ordered map through a generated history of Set / Delete / Replace calls and,
+// next to it, the reference model of that history (a list of pairs kept by the documented rules:
+// Set appends or updates in place, Delete removes, Replace renames in place - or appends when the
+// old key is absent - and drops any other item of the new name). The expected tree comes from the
+// model, never from the map's own iteration.
+func genMap(t *rapid.T, depth int, yamlSafe bool, noMergeKey bool) (*ordered.MapSA, *gt.Node) {
 	n := rapid.IntRange(0, 6).Draw(t, "n")
 	if depth == 0 && rapid.IntRange(0, 2).Draw(t, "big") == 0 {
 		n = rapid.IntRange(9, 40).Draw(t, "nbig")
 	}
 	m := ordered.NewMap[string, any](rapid.IntRange(0, 4).Draw(t, "cap"))
+	type pair struct {
+		k string
+		v *gt.Node
+	}
+	var model []pair
+	find := func(k string) int {
+		for i, p := range model {
+			if p.k == k {
+				return i
+			}
+		}
+		return -1
+	}
+	set := func(k string, v any, vn *gt.Node) {
+		m.Set(k, v)
+		if i := find(k); i >= 0 {
+			model[i].v = vn
+		} else {
+			model = append(model, pair{k, vn})
+		}
+	}
+	del := func(k string) {
+		m.Delete(k)
+		if i := find(k); i >= 0 {
+			model = append(model[:i:i], model[i+1:]...)
+		}
+	}
+	replace := func(old, nw string, v any, vn *gt.Node) {
+		m.Replace(old, nw, v)
+		if old != nw {
+			if j := find(nw); j >= 0 {
+				model = append(model[:j:j], model[j+1:]...)
+			}
+		}
+		if i := find(old); i >= 0 {
+			model[i] = pair{nw, vn}
+		} else {
+			model = append(model, pair{nw, vn})
+		}
+	}
 	str := func(label string) string {
 		for {
 			s := strs.S().Draw(t, label)
@@ -309,46 +354,115 @@ func genMap(t *rapid.T, depth int, yamlSafe bool, noMergeKey bool) *ordered.MapS
 			return s
 		}
 	}
-	var val func(d int) any
-	val = func(d int) any {
+	key := func(label string) (string, bool) {
+		k := str(label)
+		if noMergeKey && k == "<<" || len(k) > doc.MaxKeyLen {
+			return "", false
+		}
+		return k, true
+	}
+	var val func(d int) (any, *gt.Node)
+	val = func(d int) (any, *gt.Node) {
 		switch k := rapid.IntRange(0, 9).Draw(t, "vk"); {
 		case k < 3:
-			return str("v")
+			s := str("v")
+			return s, gt.StrN(s)
 		case k == 3:
-			return rapid.SampledFrom([]int{0, 1, -7, 1 << 40, 9007199254740993}).Draw(t, "int")
+			v := rapid.SampledFrom([]int{0, 1, -7, 1 << 40, 9007199254740993}).Draw(t, "int")
+			return v, gt.MustGo(v)
 		case k == 4:
-			return rapid.SampledFrom([]float64{0.5, -1.25, 1e-7, 6.02e23, 1.5e300}).Draw(t, "float")
+			v := rapid.SampledFrom([]float64{0.5, -1.25, 1e-7, 6.02e23, 1.5e300}).Draw(t, "float")
+			return v, gt.MustGo(v)
 		case k == 5:
-			return rapid.Bool().Draw(t, "bool")
+			v := rapid.Bool().Draw(t, "bool")
+			return v, gt.BoolN(v)
 		case k == 6:
-			return nil
+			return nil, gt.NullN()
 		case k == 7 && d < 3:
 			l := make([]any, 0)
+			ln := gt.SeqN()
 			for i, c := 0, rapid.IntRange(0, 3).Draw(t, "ln"); i < c; i++ {
-				l = append(l, val(d+1))
+				v, vn := val(d + 1)
+				l = append(l, v)
+				ln.Items = append(ln.Items, vn)
 			}
-			return l
+			return l, ln
 		case k >= 8 && d < 3:
-			return genMap(t, d+1, yamlSafe, noMergeKey)
+			sub, subn := genMap(t, d+1, yamlSafe, noMergeKey)
+			return sub, subn
 		}
-		return str("v")
+		s := str("v")
+		return s, gt.StrN(s)
 	}
 	for i := 0; i < n; i++ {
-		k := str("k")
-		if noMergeKey && k == "<<" || len(k) > doc.MaxKeyLen {
-			continue
+		if k, ok := key("k"); ok {
+			v, vn := val(depth)
+			set(k, v, vn)
 		}
-		m.Set(k, val(depth))
 	}
-	// leave tombstones behind now and then
-	if m.Len() > 2 && rapid.IntRange(0, 2).Draw(t, "tomb") == 0 {
-		var first string
-		m.Range(func(k string, _ any) error { first = k; return fmt.Errorf("stop") })
-		v, _ := m.Get(first)
-		m.Delete(first)
-		m.Set(first, v)
+	// a history on top: deletions below and across the compaction threshold, renames onto absent,
+	// present, earlier and later keys, brand-new keys after deletions, updates of those new keys
+	if rapid.IntRange(0, 1).Draw(t, "history") == 0 {
+		existing := func(label string) (string, bool) {
+			if len(model) == 0 {
+				return "", false
+			}
+			return model[rapid.IntRange(0, len(model)-1).Draw(t, label)].k, true
+		}
+		var fresh []string
+		for i, c := 0, rapid.IntRange(1, 8).Draw(t, "nops"); i < c; i++ {
+			switch rapid.IntRange(0, 6).Draw(t, "op") {
+			case 0, 1:
+				if k, ok := existing("delk"); ok {
+					del(k)
+					recMap.Class("history:delete")
+				}
+			case 2:
+				if old, ok := existing("old"); ok {
+					if nw, ok := existing("onto"); ok {
+						v, vn := val(depth)
+						replace(old, nw, v, vn)
+						recMap.Class("history:rename-onto-present")
+					}
+				}
+			case 3:
+				if nw, ok := key("newname"); ok {
+					v, vn := val(depth)
+					if old, ok2 := existing("old2"); ok2 && rapid.Bool().Draw(t, "oldpresent") {
+						replace(old, nw, v, vn)
+					} else {
+						replace("absent\x00"+nw, nw, v, vn)
+					}
+					recMap.Class("history:rename")
+				}
+			case 4:
+				if k, ok := key("freshk"); ok {
+					v, vn := val(depth)
+					set(k, v, vn)
+					fresh = append(fresh, k)
+					recMap.Class("history:set-new")
+				}
+			default:
+				// update a key added by this history (or any key)
+				k, ok := "", false
+				if len(fresh) > 0 {
+					k, ok = rapid.SampledFrom(fresh).Draw(t, "upfresh"), true
+				} else {
+					k, ok = existing("upk")
+				}
+				if ok {
+					v, vn := val(depth)
+					set(k, v, vn)
+					recMap.Class("history:update")
+				}
+			}
+		}
 	}
-	return m
+	want := gt.MapN(true)
+	for _, p := range model {
+		want.Put(p.k, p.v)
+	}
+	return m, want
 }
 
 func hasKeyDeep(m *ordered.MapSA, key string) bool {
@@ -379,11 +493,24 @@ var recMap = ev.New("TestPropMapRoundTrip", "programmatically built *ordered.Map
 func TestPropMapRoundTrip(t *testing.T) {
 	ev.Check(t, 3000, 30000, func(t *rapid.T) {
 		yamlLeg := rapid.Bool().Draw(t, "yamlleg")
-		m := genMap(t, 0, yamlLeg, yamlLeg && ev.Known("F9"))
+		m, want := genMap(t, 0, yamlLeg, yamlLeg && ev.Known("F9"))
 		if yamlLeg && ev.Known("F9") {
 			recMap.Class("yaml-leg-without-merge-key")
 		}
-		want := gt.MustGo(m)
+		// the map itself agrees with the model of its history before anything is encoded
+		if d := gt.Diff(want, gt.MustGo(m), gt.Opt{}); d != "" {
+			t.Fatalf("the map differs from the reference model of the calls that built it: %s", d)
+		}
+		for i, k := range want.Keys {
+			if v, ok := m.Get(k); !ok {
+				t.Fatalf("Get(%q) finds nothing although the model holds the key", k)
+			} else if d := gt.Diff(want.Vals[i], gt.MustGo(v), gt.Opt{}); d != "" {
+				t.Fatalf("Get(%q) differs from the model: %s", k, d)
+			}
+		}
+		if m.Len() != len(want.Keys) {
+			t.Fatalf("Len() = %d, the model holds %d keys", m.Len(), len(want.Keys))
+		}
 		var back *ordered.MapSA
 		var enc []byte
 		var err error
